@@ -11,7 +11,7 @@ PID = "C07"
 def run(tier, seed):
     rng = random.Random(seed)
     mc = filecheck.design_check()
-    n = 500 if tier == "quick" else 8000
+    n = 500 if tier == "quick" else 4000
     execs = []
     i = 0
     for cfg, fmt in [("cfg/File_sim.cfg", 1), ("cfg/File_sim_ok.cfg", 1), ("cfg/File_sim_ok2.cfg", 2), ("cfg/File_sim_ok5.cfg", 5), ("cfg/File_sim5.cfg", 5)]:
@@ -37,7 +37,7 @@ def run(tier, seed):
         execs.append({"x": "att%d" % j, "steps": tr.steps(it["h"], ["a", "b", "c", "d"])})
     # ... and random walks over the same operations: the library's lookup tables depend on the path taken, not only
     # on the resulting list
-    sim = vlib.tlc_emit("File_MC.tla", "cfg/File_att_sim.cfg", simulate=300 if tier == "quick" else 5000, depth=11, seed=seed + 9, workers=4)
+    sim = vlib.tlc_emit("File_MC.tla", "cfg/File_att_sim.cfg", simulate=300 if tier == "quick" else 2500, depth=11, seed=seed + 9, workers=4)
     seen = set()
     for it in sim["items"]:
         import json as _j
@@ -48,7 +48,7 @@ def run(tier, seed):
         info = {"nc_hash_size_gattr": rng.choice(["1", "2", "1"])}
         tr = filegen.Translator(rng, fmt=1, family="ascii", info=info, obs=["schema"])
         execs.append({"x": "attw%d" % len(seen), "steps": tr.steps(it["h"], ["a", "b", "c", "d"])})
-        if len(seen) >= (1500 if tier == "quick" else 20000):
+        if len(seen) >= (1500 if tier == "quick" else 8000):
             break
     return filecheck.run(PID, tier, seed, execs, mc,
                          "random walks (TLC -simulate of File_MC, depth 14-16; one generator admits failing calls, the other only "
